@@ -12,7 +12,23 @@ Inductive obs :=
      name, addresses (family flag, value) in any order *)
   | Res (reason : N) (canon : string) (ips : list (bool * N)).
 
+(** Response side: an answer record (owner, data) and what the client
+    received for one query. *)
+Inductive xrr :=
+  | XC (owner target : string) | XA (owner : string) (v : N)
+  | X6 (owner : string) (v : N) | XO (owner : string) (rrtype : N).
+
+Inductive robs :=
+  | RTimeout
+  | RErr
+  (* upstream questions, question name of the delivered message, rcode, answer *)
+  | RObs (calls : list (string * N)) (qname : string) (rcode : N) (ans : list xrr).
+
 Inductive case :=
+  (* the same table, served by a dnsforward.Server with the scripted
+     upstream [ups]; queries: name, qtype, observed response *)
+  | CResp (enabled : bool) (tbl : list (string * string * option (bool * N)))
+          (qs : list (string * N * robs))
   (* FilteringEnabled; the configured table (domain, answer, what
      netip.ParseAddr returned for the answer); queries: host, qtype,
      observed processRewrites, observed CheckHost *)
@@ -25,6 +41,7 @@ Definition I4 (v : N) : bool * N := (true, v).
 Definition I6 (v : N) : bool * N := (false, v).
 Definition E (d a : string) (p : option (bool * N)) := (d, a, p).
 Definition Q (h : string) (qt : N) (o1 o2 : obs) := (h, qt, o1, o2).
+Definition QR (h : string) (qt : N) (o : robs) := (h, qt, o).
 
 Definition mk_ip (p : bool * N) : ip := {| ip_is4 := fst p; ip_val := snd p |}.
 
@@ -59,8 +76,52 @@ Definition query_ok (enabled : bool) (t : list entry) (q : string * N * obs * ob
   obs_ok (process_rewrites isort t (bs h) qt) o1 &&
   obs_ok (check_host isort enabled t (bs h) qt) o2.
 
+(** The scripted upstream of the response harness (c06rUpstream in Go). *)
+Definition ups (name : bytes) (qt : N) : N * list rr :=
+  if has_suffix (to_lower name) (bs ".example") then (3, [])
+  else if qt =? qA then (0, [RR_A name 151587081])                          (* 9.9.9.9 *)
+  else if qt =? qAAAA then (0, [RR_AAAA name 42540766411282592856903984951653826569])  (* 2001:db8::9 *)
+  else (0, []).
+
+Definition mk_rr (x : xrr) : rr :=
+  match x with
+  | XC o t => RR_CNAME (bs o) (bs t) | XA o v => RR_A (bs o) v
+  | X6 o v => RR_AAAA (bs o) v | XO o t => RR_OTHER (bs o) t
+  end.
+
+Definition eqb_rr (a b : rr) : bool :=
+  match a, b with
+  | RR_CNAME o t, RR_CNAME o' t' => eqb_bytes o o' && eqb_bytes t t'
+  | RR_A o v, RR_A o' v' => eqb_bytes o o' && (v =? v')
+  | RR_AAAA o v, RR_AAAA o' v' => eqb_bytes o o' && (v =? v')
+  | RR_OTHER o t, RR_OTHER o' t' => eqb_bytes o o' && (t =? t')
+  | _, _ => false
+  end.
+
+(** Same records; the first in the same place (the CNAME), the rest in any order. *)
+Definition same_rrs (l1 l2 : list rr) : bool :=
+  Nat.eqb (List.length l1) (List.length l2) &&
+  forallb (fun x => Nat.eqb (List.length (filter (eqb_rr x) l1)) (List.length (filter (eqb_rr x) l2))) l1 &&
+  match l1, l2 with a :: _, b :: _ => eqb_rr a b | _, _ => true end.
+
+Definition eqb_call (a b : bytes * N) : bool := eqb_bytes (fst a) (fst b) && (snd a =? snd b).
+
+Definition robs_ok (m : option response) (o : robs) : bool :=
+  match m, o with
+  | None, RTimeout => true
+  | Some p, RObs calls qn rc ans =>
+      eqb_list eqb_call (rp_upstream p) (map (fun c : string * N => (bs (fst c), snd c)) calls) &&
+      eqb_bytes (rp_qname p) (bs qn) && (rp_rcode p =? rc) &&
+      same_rrs (rp_answer p) (map mk_rr ans)
+  | _, _ => false
+  end.
+
+Definition rquery_ok (enabled : bool) (t : list entry) (q : string * N * robs) : bool :=
+  let '(h, qt, o) := q in robs_ok (respond isort ups enabled t (bs h) qt) o.
+
 Definition case_ok (c : case) : bool :=
   match c with
+  | CResp en tbl qs => let t := table tbl in forallb (rquery_ok en t) qs
   | CTab en tbl qs => let t := table tbl in forallb (query_ok en t) qs
   end.
 
@@ -77,6 +138,22 @@ Definition show (m : option rw_result) : N * bytes * list (bool * N) :=
 
 Definition explain (c : case) :=
   match c with
+  | CResp en tbl qs =>
+      let t := table tbl in
+      map (fun q : string * N * robs =>
+             let '(h, qt, _) := q in
+             (rquery_ok en t q,
+              match respond isort ups en t (bs h) qt with
+              | None => (9, [], [])
+              | Some p => (rp_rcode p, rp_qname p, [])
+              end,
+              match respond isort ups en t (bs h) qt with
+              | None => (9, [], [])
+              | Some p => (N.of_nat (List.length (rp_upstream p)),
+                           match rp_upstream p with c :: _ => fst c | [] => [] end,
+                           map (fun r => match r with RR_A _ v => (true, v) | RR_AAAA _ v => (false, v)
+                                          | _ => (false, 0) end) (rp_answer p))
+              end)) qs
   | CTab en tbl qs =>
       let t := table tbl in
       map (fun q : string * N * obs * obs =>
